@@ -196,13 +196,16 @@ class ListCommand(CommandAuth):
         ref_name, buf = Mailbox.parse(buf, params)
         _, buf = Space.parse(buf, params)
         match = cls._list_mailbox_pattern.match(buf)
-        if match:
-            filter_raw = match.group(0)
-            buf = buf[match.end(0):]
-            filter_ = modutf7_decode(filter_raw)
-        else:
-            filter_str, buf = String.parse(buf, params)
-            filter_ = modutf7_decode(filter_str.value)
+        try:
+            if match:
+                filter_raw = match.group(0)
+                buf = buf[match.end(0):]
+                filter_ = modutf7_decode(filter_raw)
+            else:
+                filter_str, buf = String.parse(buf, params)
+                filter_ = modutf7_decode(filter_str.value)
+        except UnicodeError as exc:
+            raise NotParseable(buf) from exc
         _, buf = EndLine.parse(buf, params)
         return cls(params.tag, ref_name.value, filter_), buf
 
